@@ -14,6 +14,7 @@ import time
 from concurrent.futures import ThreadPoolExecutor
 
 LIMIT_S = 20.0          # CPU seconds per query (process CPU time, so a busy machine does not matter much)
+MAX_HANGS = 3           # after that many aborted queries the rest of the file is skipped (bounds the run on a bad tree)
 FLOOR = 30000           # work units (Python calls) below which growth ratios are noise: the constant C
 # Sandbox artefact, not reported: without typeshed (empty submodule here) list/tuple/dict literals are generic classes over
 # COMPILED builtins, and any attribute access on them (`x = []; x.append`, no cycle in the program at all) recurses in
@@ -338,7 +339,7 @@ def run(repo, seed, tier):
         while start is not None:
             r = _spawn(job_for(i, start=start), wall=3600)
             parts.append(r)
-            start = r['resume'] if r['resume'] is not None and r['resume'] < r['total'] else None
+            start = r['resume'] if r['resume'] is not None and r['resume'] < r['total'] and len(parts) < MAX_HANGS else None
         if os.environ.get('C15_DUMP'):
             print('TIMING', progs[i][0], round(time.time() - t0, 1), sum(r['evaluations'] for r in parts), flush=True)
         return i, parts
